@@ -4,6 +4,7 @@ import (
 	"fmt"
 	"strings"
 
+	"verif/internal/explore"
 	"verif/internal/wgen"
 )
 
@@ -15,6 +16,38 @@ type c10Gen struct {
 	Count int
 	At    func(i int) string
 	Label func(i int) string // short stable description of input i
+
+	// Many, when set, makes index i a job that yields several inputs (At is then unused); SubLabel
+	// names input j of job i.
+	Many     func(i int) []string
+	SubLabel func(i, j int) string
+	// Resolve, when set, turns the generator's failures (sorted by index) into keyed violations after
+	// the whole generator has run; otherwise every failure is keyed by its failure class alone.
+	Resolve func(fs []c10Failure) []explore.Violation
+	// Split > 0: indices [0,Split) run first; SkipEnv turns their failures into an environment
+	// assignment ("NAME=value") handed to the workers of the remaining indices (the generator reads it
+	// when it is built in the worker and yields nothing for the indices it decides to skip).
+	Split   int
+	SkipEnv func(fs []c10Failure) string
+	// Light: run the inputs without the two non-default option sets (see c10RunOne)
+	Light bool
+}
+
+func (g *c10Gen) label(i, j int) string {
+	if g.Many != nil && g.SubLabel != nil {
+		return g.Label(i) + " :: " + g.SubLabel(i, j)
+	}
+	return g.Label(i)
+}
+
+func (g *c10Gen) src(i, j int) string {
+	if g.Many != nil {
+		if m := g.Many(i); j < len(m) {
+			return m[j]
+		}
+		return ""
+	}
+	return g.At(i)
 }
 
 var c10Alphabet = []string{"(", ")", "{", "}", "[", "]", "<", ">", ",", ";", ":", ".", "@", "=", "-", "*", "&", "a", "1", "fn", "var", "let", "struct", "array"}
@@ -183,6 +216,9 @@ type ladder struct {
 	sizes []int
 	gen   func(n int) string
 }
+
+// ladderQuickMax: the quick tier takes only rungs n <= the value (ladders whose object grows faster than n)
+var ladderQuickMax = map[string]int{"nested-big-arrays": 64}
 
 func rep(s string, n int) string { return strings.Repeat(s, n) }
 
@@ -384,7 +420,9 @@ var c10Ladders = []ladder{
 	{"private-init-array-size", bigN, func(n int) string {
 		return fmt.Sprintf("var<private> a: array<i32, %d> = array<i32, %d>();\n@group(0) @binding(0) var<storage, read_write> o: i32;\n%s{ o = a[0]; }", n, n, mainHdr)
 	}},
-	{"nested-big-arrays", []int{1, 256, 65535}, func(n int) string {
+	// n^3 elements: n=256 is a 64 MiB object whose element-wise zero value costs tens of CPU seconds (below the
+	// cap on an idle machine, above it on a loaded one), so the quick tier stops at n=64 (2^18 elements)
+	{"nested-big-arrays", []int{1, 64, 256, 65535}, func(n int) string {
 		return fmt.Sprintf("var<private> a: array<array<array<u32, %d>, %d>, %d>;\n@group(0) @binding(0) var<storage, read_write> o: u32;\n%s{ o = a[0][0][0]; }", n, n, n, mainHdr)
 	}},
 	{"struct-of-big-arrays-zero", bigN[:7], func(n int) string {
@@ -471,6 +509,9 @@ func genLadders(maxDepth, maxBig int) c10Gen {
 			}
 			if n > maxN && n != 1<<31-1 && n != 1<<32-1 {
 				continue // quick tier: small rungs only (plus the two integer-limit values)
+			}
+			if q := ladderQuickMax[l.name]; q > 0 && maxDepth < 1<<62 && n > q {
+				continue
 			}
 			if s := l.gen(n); len(s) <= 65536 {
 				ents = append(ents, ent{l, n})
